@@ -39,7 +39,46 @@ def gen_ranges(rng, src, n):
         else:
             b = ln + rng.below(50)
         out.append((a, b))
+    # line-structured requests (what an editor sends): from the first non-blank of a line to the end of the same
+    # or a later line, and single points inside lines
+    bs = src.encode("utf-8")
+    marks = []
+    pos = 0
+    for line in bs.split(b"\n"):
+        first = pos + (len(line) - len(line.lstrip(b" \t")))
+        end = pos + len(line)
+        if first < end and first in offs_set(offs) and end in offs_set(offs):
+            marks.append((first, end))
+        pos = end + 1
+    k = n if len(bs) > 400 else 4 * n
+    for _ in range(min(k, len(marks) * 2)):
+        i = rng.below(len(marks))
+        j = min(len(marks) - 1, i + rng.below(3))
+        a, b = marks[i][0], marks[j][1]
+        r = rng.below(4)
+        if r == 0:
+            out.append((a, b))
+        elif r == 1:
+            out.append((a, marks[i][1]))
+        elif r == 2:
+            m = a + rng.below(max(1, marks[i][1] - a))
+            while m not in offs_set(offs) and m < marks[i][1]:
+                m += 1
+            out.append((m, m))
+        else:
+            out.append((marks[i][0] + 0, marks[j][1]))
     return out
+
+
+_OFFS_CACHE = {}
+
+
+def offs_set(offs):
+    k = id(offs)
+    if k not in _OFFS_CACHE:
+        _OFFS_CACHE.clear()
+        _OFFS_CACHE[k] = set(offs)
+    return _OFFS_CACHE[k]
 
 
 def run_cases(cases, timeout=3000):
